@@ -26,8 +26,8 @@ pub trait ExVarInt: Sized + Copy {
         ensures r == self.venc().len(), final(dst)@.len() == old(dst)@.len(), final(dst)@.take(r as int) == self.venc();
     fn decode_var(src: &[u8]) -> (r: Option<(Self, usize)>)
         ensures match r {
-            Some((v, k)) => leb_terminated(src@, k as int) && k <= 10 && v == Self::vconv(leb_val(src@, k as int)),
-            None => forall|k: int| 1 <= k <= 10 ==> !leb_terminated(src@, k),
+            Some((v, k)) => k == leb_end(src@) && 1 <= k <= 10 && v == Self::vconv(leb_val(src@, k as int)),
+            None => leb_end(src@) == 0 || leb_end(src@) > 10,
         };
 }
 
@@ -51,7 +51,7 @@ impl VarIntSpecImpl for u32 {
 /// every encoding is 1..=10 bytes (64 payload bits), and size_of-derived maximum covers it
 pub broadcast axiom fn axiom_venc_len<VI: VarInt>(v: VI)
     ensures 1 <= (#[trigger] v.venc()).len() <= 10, v.venc().len() <= (vstd::layout::size_of::<VI>() * 8 + 7) / 7,
-            leb_terminated(v.venc(), v.venc().len() as int);
+            leb_terminated(v.venc(), v.venc().len() as int), leb_end(v.venc()) == v.venc().len();
 /// decoding the payload of an encoding gives the value back
 pub broadcast axiom fn axiom_vconv_venc<VI: VarInt>(v: VI, rest: Seq<u8>)
     ensures VI::vconv(#[trigger] leb_val(v.venc() + rest, v.venc().len() as int)) == v;
